@@ -29,4 +29,6 @@ def suites(tier):
     for colon in (0, 1):
         cfg = dict(colon=colon, items=2 if tier == "quick" else 3)
         jobs.append(dict(id=jid("sgr", cfg), func="zzH_C11_sgr", cfg=cfg))
+    cfg = dict(items=4 if tier == "quick" else 6)
+    jobs.append(dict(id=jid("color", cfg), func="zzH_C11_color", cfg=cfg))
     return [src_suite("src", jobs)]
